@@ -166,6 +166,10 @@ class Session:
             return Expect({"215"})
         if v == "REST":
             if arg.isascii() and arg.isdigit():
+                if len(arg) > 300:
+                    # an offset no file can have: accepting or refusing it are both fine - what is
+                    # not is to end the session over it
+                    return Expect({"350", "5xx"}, note="absurdly long restart offset")
                 return Expect({"350"})
             return Expect({"5xx"}, note="malformed restart offset")
         known = {"PWD", "CWD", "CDUP", "MKD", "RMD", "DELE", "RNFR", "RNTO", "MLST", "MLSD", "LIST", "RETR", "STOR", "APPE", "TYPE", "PBSZ", "PROT", "PASV", "EPSV", "ABOR"}
@@ -265,6 +269,8 @@ class Session:
                     e.codes = {"425"}
                 else:
                     e.data = self.tree[p][self.rest :]
+                    if self.rest > 2**40:
+                        e.codes = e.codes | {"4xx"}  # an offset no backend can seek to
             return e
         if v in ("STOR", "APPE"):
             e0 = self._by_perm(p, "w", {"2xx"}, mark=True)
@@ -284,6 +290,8 @@ class Session:
             if self.rest > 0 and not self.exists(p):
                 e0.codes = e0.codes | {"4xx", "5xx"}  # backend dependent (C18)
                 e0.note = "restart on a missing file"
+            if self.rest > 2**40:
+                e0.codes = e0.codes | {"4xx"}  # an offset no backend can seek to
             return e0
         raise AssertionError(v)
 
@@ -319,7 +327,7 @@ class Session:
         elif v == "QUIT":
             self.closed = True
         elif v == "REST":
-            self.rest = int(arg) if code == "350" else 0
+            self.rest = int(arg[:25]) if code == "350" else 0
         elif v in ("CWD", "CDUP") and ok:
             self.cwd = resolve(self.cwd, arg) if v == "CWD" else parent(self.cwd)
         elif v == "MKD" and ok:
@@ -360,7 +368,9 @@ class Session:
             if ok and stored is not None:
                 p = resolve(self.cwd, arg)
                 old = self.tree.get(p) or b""
-                if self.rest:
+                if self.rest > 2**40:
+                    new = old  # not modelled (the backends refuse such an offset)
+                elif self.rest:
                     o = self.rest
                     if stored:
                         new = old[:o].ljust(o, b"\0") + stored + old[o + len(stored) :]
